@@ -12,6 +12,7 @@ import (
 	"os/exec"
 	"path/filepath"
 	"runtime"
+	"runtime/pprof"
 	"sort"
 	"strings"
 	"sync"
@@ -253,8 +254,16 @@ func Main() {
 		workers = flag.Int("workers", 0, "worker processes (default: NumCPU)")
 		budget  = flag.Int("budget", 0, "override soft exploration budget in seconds")
 		verbose = flag.Bool("v", false, "verbose")
+		cpuprof = flag.String("cpuprofile", "", "write a CPU profile (single process runs)")
 	)
 	flag.Parse()
+	if *cpuprof != "" {
+		f, err := os.Create(*cpuprof)
+		if err == nil {
+			pprof.StartCPUProfile(f)
+			defer pprof.StopCPUProfile()
+		}
+	}
 	p, ok := registry[*prop]
 	if !ok {
 		var ids []string
@@ -375,7 +384,9 @@ func Main() {
 		ctx.Shard, ctx.NShards = 0, 1
 		p.Run(ctx, rep)
 	}
-	os.Exit(finish(ctx, p, rep, *root))
+	rc := finish(ctx, p, rep, *root)
+	pprof.StopCPUProfile()
+	os.Exit(rc)
 }
 
 func envOr(k, d string) string {
@@ -405,9 +416,23 @@ func finish(ctx *Ctx, p *Prop, rep *Report, root string) int {
 	unknown := 0
 	os.MkdirAll(filepath.Join(root, "violations"), 0o755)
 	var knownHit []string
+	printed := map[*Finding]bool{}
 	for _, v := range rep.Violations {
-		if f, ok := known[v.Fingerprint]; ok {
+		f, ok := known[v.Fingerprint]
+		if !ok {
+			for pat, kf := range known {
+				if strings.Contains(pat, "<*>") && globMatch(pat, v.Fingerprint) {
+					f, ok = kf, true
+					break
+				}
+			}
+		}
+		if ok {
 			knownHit = append(knownHit, v.Fingerprint)
+			if printed[f] {
+				continue
+			}
+			printed[f] = true
 			fmt.Printf("KNOWN-FINDING: property=%s %s [%s]\n", p.ID, f.Description, v.Fingerprint)
 			continue
 		}
@@ -499,4 +524,26 @@ func Short(s string, n int) string {
 		return s[:n] + "..."
 	}
 	return s
+}
+
+// globMatch matches s against a pattern in which the token <*> stands for
+// any (possibly empty) substring.
+func globMatch(pat, s string) bool {
+	parts := strings.Split(pat, "<*>")
+	if !strings.HasPrefix(s, parts[0]) {
+		return false
+	}
+	s = s[len(parts[0]):]
+	for i := 1; i < len(parts); i++ {
+		p := parts[i]
+		if i == len(parts)-1 {
+			return strings.HasSuffix(s, p)
+		}
+		j := strings.Index(s, p)
+		if j < 0 {
+			return false
+		}
+		s = s[j+len(p):]
+	}
+	return s == ""
 }
